@@ -132,7 +132,7 @@ class ExternalAddress:
             if length is None:
                 length = len(address) * 8  # a byte string has a length of its own: its leading zero bits belong to it
             address = int.from_bytes(address, 'big')
-        if length is None:
+        if length is None and address is not None:
             length = address.bit_length()
         self.external_address = address
         self.len = length
@@ -148,7 +148,7 @@ class ExternalAddress:
                 .end_cell())
 
     def __repr__(self):
-        if self.len is not None:
+        if self.external_address is not None:
             return f'ExternalAddress<{hex(self.external_address)}>'
         return f'ExternalAddress<{self.external_address}>'
 
